@@ -56,6 +56,7 @@ var trList = []trFunc{
 	{"CodeRoute", "route", "metricName", "metricName", true, false, nil, nil, "", nil, nil, ""},
 	{"CodeRoute", "route", "SendAllMatch.Dispatch", "SendAllMatch.Dispatch", false, false, nil, nil, "", nil, nil, ""},
 	{"CodeRoute", "route", "SendFirstMatch.Dispatch", "SendFirstMatch.Dispatch", false, false, nil, nil, "", nil, nil, ""},
+	{"CodeHasher", "destination", "addrInstanceSplit", "addrInstanceSplit", true, false, nil, nil, "", nil, nil, ""},
 	{"CodeHasher", "route", "ConsistentHasher.GetDestinationIndex", "ConsistentHasher.GetDestinationIndex", true, true, nil, nil, "", nil, nil, ""},
 	{"CodeHasher", "route", "ConsistentHashing.Dispatch", "ConsistentHashing.Dispatch", false, true, nil, nil, "", nil, nil, ""},
 	{"CodeTable", "table", "Table.Dispatch", "Table.Dispatch", false, true, nil, nil, "", nil, nil, ""},
@@ -132,6 +133,7 @@ var envMethods = map[string]bool{"GetDestinationIndex": true}
 var libFuncs = map[string]string{
 	"bytes.HasPrefix": "Lib.bytes_HasPrefix", "bytes.Contains": "Lib.bytes_Contains", "bytes.IndexByte": "Lib.bytes_IndexByte",
 	"bytes.Fields": "Lib.bytes_Fields", "bytes.Join": "Lib.bytes_Join", "sort.Search": "Lib.sort_Search", "len": "Lib.len", "bytes.Replace": "Lib.bytes_Replace", "strings.SplitN": "Lib.strings_SplitN",
+	"strings.Count": "Lib.strings_Count", "strings.Split": "Lib.strings_Split", "strings.Join": "Lib.strings_Join",
 }
 var identityCalls = map[string]bool{"[]interface{}": true, "[]byte": true, "string": true, "int": true, "uint32": true, "int64": true, "uint16": true, "uint": true, "time.Duration": true}
 
